@@ -62,6 +62,7 @@ type c15Pub struct {
 	Topic string `json:"topic"`
 	QoS   int    `json:"qos"`
 	ID    int    `json:"id"`
+	Dup   bool   `json:"dup,omitempty"` // DUP flag of the PUBLISH (a client retransmitting, or just setting it)
 }
 
 type c15Input struct {
@@ -499,6 +500,7 @@ func c15ExecOnce(in c15Input) c15Obs {
 					p.TopicName = pb.Topic
 					p.Qos = byte(pb.QoS)
 					p.MessageID = uint16(pb.ID)
+					p.Dup = pb.Dup
 					p.Payload = []byte("up")
 					c.processPacket(p)
 				}
@@ -511,6 +513,12 @@ func c15ExecOnce(in c15Input) c15Obs {
 				c15Rec.mu.Lock()
 				st.Pipe = append([]c15wPipe{}, c15Rec.calls[before:]...)
 				c15Rec.mu.Unlock()
+			}
+		case "refill":
+			// the period of the client's publish limiter has elapsed: it admits `limit` publishes again
+			// (a fresh limiter instead of waiting for the real period)
+			if c, ok := clients[ev.C]; ok && in.Limit > 0 {
+				c.publishLimit = newLimiter(&RateLimit{RequestRate: in.Limit, TimePeriod: 1000})
 			}
 		case "resume":
 			if c, ok := clients[ev.C]; ok && !c.session.cleanSession() {
@@ -619,11 +627,34 @@ func c15Gen(r *verifh.Rand, i int) interface{} {
 			default: // burst of client PUBLISH packets, acknowledged only after the whole burst was read
 				ev := c15Event{K: "pub", C: c}
 				base := r.PickInt(1, 10, 100, 65533)
+				// packet-id discipline of the client: consecutive ids, always the same id (in-flight window of
+				// 1), or alternating two ids; DUP set on some (retransmissions, e.g. after a limiter drop)
+				mode := r.Intn(3)
 				for j := r.Range(1, 6); j > 0; j-- {
-					ev.Pubs = append(ev.Pubs, c15Pub{Topic: r.Pick("up/x", "up/y", "up/x", "drop/x"), QoS: r.PickInt(0, 1, 1, 1), ID: base % 65536})
+					id := base % 65536
+					switch mode {
+					case 1:
+						id = 1
+					case 2:
+						id = 1 + j%2
+					}
+					ev.Pubs = append(ev.Pubs, c15Pub{Topic: r.Pick("up/x", "up/y", "up/x", "drop/x"), QoS: r.PickInt(0, 1, 1, 1), ID: id, Dup: mode != 0 && r.Bool(1, 2)})
 					base++
 				}
 				in.Events = append(in.Events, ev)
+				if in.Limit > 0 && r.Bool(1, 2) {
+					// the limiter period elapses and the client sends again (same id discipline, DUP set)
+					in.Events = append(in.Events, c15Event{K: "refill", C: c})
+					ev2 := c15Event{K: "pub", C: c}
+					for j := r.Range(1, 3); j > 0; j-- {
+						id := 1 + j%2
+						if mode == 1 {
+							id = 1
+						}
+						ev2.Pubs = append(ev2.Pubs, c15Pub{Topic: r.Pick("up/x", "up/y"), QoS: 1, ID: id, Dup: r.Bool(2, 3)})
+					}
+					in.Events = append(in.Events, ev2)
+				}
 			}
 		case x < 11 || len(ids) == 0:
 			ev := c15Event{K: "m", Via: "d", Topic: c15GenTopic(r), QoS: r.PickInt(0, 1, 1, 1), Payload: fmt.Sprintf("p%d", seq)}
